@@ -32,7 +32,7 @@ func VC_C15_arm64_divert() {
 	// subject of C01 and reported there
 	same := true
 	for i := 0; i < 32; i++ {
-		if i != 26 && i != 27 && i != 10 && m.x[i] != before.x[i] {
+		if i != 26 && i != 27 && m.x[i] != before.x[i] {
 			same = false
 		}
 	}
